@@ -534,6 +534,7 @@ def gen_cxx(md, policy=0, introspect=False, frontend="functor"):
         w("  static void caps_%s(M_%s& f) {" % (name, name))
         w("#ifdef H_CIRC")
         w("    f.get_message_queue().set_capacity(64);")
+        w("    if constexpr (C::template has_defq<M_%s>()) f.get_deferred_queue().set_capacity(64);" % name)
         for i, st in enumerate(m["states"]):
             if st["sub"] is not None:
                 sub = pname(path + (i,))
